@@ -14,10 +14,24 @@ type zzC08Data struct {
 	Other string
 }
 
+// the key is the Go field name when the tag carries options but no name
+type zzC08DataNoName struct {
+	K     string `json:",omitempty"`
+	Other string `json:"other,omitempty"`
+}
+
 // the page prints k in every read position
-const zzC08Page = `<p :title="k">[{{ k }}]</p>` +
+const zzC08PageK = `<p :title="k">[{{ k }}]</p>` +
 	`<i v-if="k == 'FM'">is-FM</i><i v-if="k == 'ASSIGN'">is-ASSIGN</i><i v-if="k == 'FILL'">is-FILL</i>` +
 	`<i v-if="k == 'DATA'">is-DATA</i><i v-if="k == 'THEME'">is-THEME</i>`
+
+// zzC08Page prints the key kn ("k" or "K") in every read position.
+func zzC08Page(kn string) string {
+	if kn == "k" {
+		return zzC08PageK
+	}
+	return strings.ReplaceAll(strings.ReplaceAll(strings.ReplaceAll(zzC08PageK, `"k"`, `"`+kn+`"`), "{{ k }}", "{{ "+kn+" }}"), `"k ==`, `"`+kn+` ==`)
+}
 
 // VerifC08_Precedence: every subset of the five sources defining k, map vs
 // struct vs pointer data, Fill/Assign order; the value is the first present
@@ -28,25 +42,34 @@ func VerifC08_Precedence() {
 	inAssign := zzBool("assign")
 	inData := zzBool("datayml")
 	inTheme := zzBool("theme")
-	shape := zzChoice("shape", 3) // map, struct, *struct
+	shape := zzChoice("shape", 5) // map, struct, *struct, struct and *struct whose tag has options but no name
+	kn := "k"
+	if shape >= 3 {
+		kn = "K"
+	}
+	// the Fill value may be the empty string: present, and it still wins over lower sources
+	fillVal := "FILL"
+	if zzBool("fillEmpty") {
+		fillVal = ""
+	}
 	assignFirst := zzBool("assignBeforeFill")
 	nilIn := zzChoice("definedWithNil", 3) // 0 nobody, 1 the front-matter, 2 Assign: the key is present with a nil value
 
 	files := map[string]string{}
-	page := zzC08Page
+	page := zzC08Page(kn)
 	if inFM {
 		if nilIn == 1 {
-			page = "---\nk:\n---\n" + page
+			page = "---\n" + kn + ":\n---\n" + page
 		} else {
-			page = "---\nk: FM\n---\n" + page
+			page = "---\n" + kn + ": FM\n---\n" + page
 		}
 	}
 	files["page.vuego"] = page
 	if inData {
-		files["data/site.yml"] = "k: DATA\nd: D\n"
+		files["data/site.yml"] = kn + ": DATA\nd: D\n"
 	}
 	if inTheme {
-		files["theme.yml"] = "k: THEME\nth: T\n"
+		files["theme.yml"] = kn + ": THEME\nth: T\n"
 	}
 	fsys := newZZFS(files)
 	tpl := NewFS(fsys)
@@ -56,13 +79,13 @@ func VerifC08_Precedence() {
 	case 0:
 		m := map[string]any{"other": "O"}
 		if inFill {
-			m["k"] = "FILL"
+			m["k"] = fillVal
 		}
 		fillData = m
 	case 1:
 		d := zzC08Data{Other: "O"}
 		if inFill {
-			d.K = "FILL"
+			d.K = fillVal
 		} else {
 			return // a struct always defines its fields; absence is not expressible
 		}
@@ -70,22 +93,33 @@ func VerifC08_Precedence() {
 	case 2:
 		d := &zzC08Data{Other: "O"}
 		if inFill {
-			d.K = "FILL"
+			d.K = fillVal
 		} else {
 			return
 		}
 		fillData = d
+	case 3, 4:
+		d := zzC08DataNoName{Other: "O"}
+		if inFill {
+			d.K = fillVal
+		} else {
+			return
+		}
+		fillData = d
+		if shape == 4 {
+			fillData = &d
+		}
 	}
 	loaded := tpl.Load("page.vuego")
 	if assignFirst {
 		if inAssign {
-			loaded = loaded.Assign("k", zzC08AssignVal(nilIn))
+			loaded = loaded.Assign(kn, zzC08AssignVal(nilIn))
 		}
 		loaded = loaded.Fill(fillData)
 	} else {
 		loaded = loaded.Fill(fillData)
 		if inAssign {
-			loaded = loaded.Assign("k", zzC08AssignVal(nilIn))
+			loaded = loaded.Assign(kn, zzC08AssignVal(nilIn))
 		}
 	}
 
@@ -102,14 +136,14 @@ func VerifC08_Precedence() {
 		want = "FM"
 	case inFill && inAssign:
 		if assignFirst {
-			want = "FILL"
+			want = fillVal
 		} else {
 			want = "ASSIGN"
 		}
 	case inAssign:
 		want = "ASSIGN"
 	case inFill:
-		want = "FILL"
+		want = fillVal
 	case inData:
 		want = "DATA"
 	case inTheme:
@@ -138,7 +172,7 @@ func VerifC08_Precedence() {
 	}
 	if !inFM {
 		// Get reads the template's own variables (front-matter is re-applied at render time)
-		zzAssert(loaded.Get("k") == want, "C08.precedence.get")
+		zzAssert(loaded.Get(kn) == want, "C08.precedence.get")
 	}
 }
 
